@@ -1194,7 +1194,7 @@ func (w *World) modifiesEffects(fc *FuncContract, eff *Effects) {
 	// type-level over-approximation of a modifies clause, used for loop havoc
 	for _, m := range fc.Modifies {
 		if p := w.targetPrefix(fc, m); p != "" {
-			eff.prefixes[p] = true
+			eff.write(p)
 		} else {
 			eff.all = true
 		}
